@@ -123,7 +123,7 @@ def derive(src_text, annotated_text):
             jb = j + 1
         prev = i
     ins_after(prev, b[jb:])
-    return {'src_lines': len(a), 'ops': ops}
+    return {'src_lines': len(a), 'src_norm': an, 'ops': ops}
 
 
 DROP_OPS = {}  # (thread id, overlay name) -> set of op indexes to skip (second chance after a syntax error in a hint)
@@ -205,11 +205,35 @@ def apply(src_text, overlay, notes=None, trace=None, skip_ops=()):
     loops = {}
     header = None
     opidx = {}
+    # line alignment between the source the overlay was derived against and the current source: an op anchored on a line that
+    # still exists (same text, same neighbourhood) goes exactly there, however many lines were added or removed elsewhere
+    amap = {}
+    if overlay.get('src_norm') and overlay['src_norm'] != an:
+        sm = difflib.SequenceMatcher(a=overlay['src_norm'], b=an, autojunk=False)
+        for (i0, j0, n0) in sm.get_matching_blocks():
+            for t in range(n0):
+                amap[i0 + t] = j0 + t
+        notes.append('source differs from the text the overlay was derived against: anchors placed by line alignment')
+    elif overlay.get('src_norm'):
+        amap = {i: i for i in range(len(an))}
     for _k, op in enumerate(overlay['ops']):
         opidx[id(op)] = _k
         if op['op'] == 'insert':
             if op['after'] == '' and op['line'] == -1:
                 idx = -1
+            elif op['line'] in amap and an[amap[op['line']]] == op['after']:
+                idx = amap[op['line']]
+            elif amap and op['line'] not in amap:
+                L = op['line']
+                if (L - 1) in amap and (L + 1) in amap and amap[L + 1] - amap[L - 1] == 2:
+                    # the anchored line was edited in place (its neighbours are where they were): keep the hint at that position
+                    idx = amap[L - 1] + 1
+                    notes.append('soft anchor: line /%s/ was edited in place' % op['after'][:40])
+                else:
+                    # the alignment shows that the anchored line is gone: the hint has lost its place (hints never add assumptions:
+                    # dropping one can only make the proof fail, never pass)
+                    notes.append('hint dropped: its anchor line /%s/ was deleted' % op['after'][:40])
+                    continue
             else:
                 try:
                     idx = _locate(an, op['after'], op['nth'], op['line'], overlay['src_lines'], notes)
@@ -233,7 +257,10 @@ def apply(src_text, overlay, notes=None, trace=None, skip_ops=()):
             inserts.setdefault(idx, []).append((op['text'], opidx[id(op)]))
         elif op['op'] == 'loop':
             try:
-                idx = _locate(an, op['at'], op['nth'], op['line'], overlay['src_lines'], notes)
+                if op['line'] in amap and an[amap[op['line']]] == op['at']:
+                    idx = amap[op['line']]
+                else:
+                    idx = _locate(an, op['at'], op['nth'], op['line'], overlay['src_lines'], notes)
             except AnchorLost:
                 idx = None
             if idx is not None and idx in loops and an[idx] != op['at']:
